@@ -253,6 +253,8 @@ impl Store {
             None
         };
 
+        #[cfg(feature = "verif")]
+        crate::verif::sync_point("read.subscribed", None);
         // Only create done channel if we're doing historical processing
         let done_rx = if !options.tail {
             let (done_tx, done_rx) = tokio::sync::oneshot::channel();
@@ -283,12 +285,16 @@ impl Store {
                         }
                     }
 
+                    #[cfg(feature = "verif")]
+                    crate::verif::sync_point("read.hist_deliver", Some(&frame.id));
                     if tx_clone.blocking_send(frame).is_err() {
                         return;
                     }
                     count += 1;
                 }
 
+                #[cfg(feature = "verif")]
+                crate::verif::sync_point("read.hist_scanned", None);
                 // Send threshold message if following and no limit
                 if should_follow_clone && options.limit.is_none() {
                     let threshold =
@@ -301,6 +307,8 @@ impl Store {
                     }
                 }
 
+                #[cfg(feature = "verif")]
+                crate::verif::sync_point("read.hist_done", None);
                 // Signal completion with the last seen ID and count
                 let _ = done_tx.send((last_id, count));
             });
@@ -328,6 +336,8 @@ impl Store {
 
                     let mut broadcast_rx = broadcast_rx;
                     while let Ok(frame) = broadcast_rx.recv().await {
+                        #[cfg(feature = "verif")]
+                        crate::verif::sync_point("read.live_recv", Some(&frame.id));
                         // Skip frames that do not match the context_id
                         if let Some(context_id) = options.context_id {
                             if frame.context_id != context_id {
@@ -489,7 +499,11 @@ impl Store {
     }
 
     pub fn append(&self, mut frame: Frame) -> Result<Frame, crate::error::Error> {
+        #[cfg(feature = "verif")]
+        crate::verif::sync_point("append.enter", None);
         frame.id = scru128::new();
+        #[cfg(feature = "verif")]
+        crate::verif::sync_point("append.id_assigned", Some(&frame.id));
 
         // Special handling for xs.context registration
         if frame.topic == "xs.context" {
@@ -523,7 +537,11 @@ impl Store {
             }
         }
 
+        #[cfg(feature = "verif")]
+        crate::verif::sync_point("append.committed", Some(&frame.id));
         let _ = self.broadcast_tx.send(frame.clone());
+        #[cfg(feature = "verif")]
+        crate::verif::sync_point("append.broadcast", Some(&frame.id));
         Ok(frame)
     }
 
@@ -617,6 +635,8 @@ fn is_expired(id: &Scru128Id, ttl: &Duration) -> bool {
         .duration_since(std::time::UNIX_EPOCH)
         .unwrap()
         .as_millis() as u64;
+    #[cfg(feature = "verif")]
+    let now_ms = crate::verif::now_override().unwrap_or(now_ms);
 
     now_ms >= expires_ms
 }
@@ -674,4 +694,40 @@ fn deserialize_frame<B1: AsRef<[u8]>, B2: AsRef<[u8]>>(record: (B1, B2)) -> Fram
         let value = std::str::from_utf8(record.1.as_ref()).unwrap();
         panic!("Failed to deserialize frame: {} {} {}", e, key, value)
     })
+}
+
+#[cfg(feature = "verif")]
+pub struct VerifRawKeys {
+    pub stream: Vec<(Vec<u8>, Vec<u8>)>,
+    pub idx_topic: Vec<Vec<u8>>,
+    pub idx_context: Vec<Vec<u8>>,
+}
+
+#[cfg(feature = "verif")]
+impl Store {
+    /// Raw contents of the three partitions (read-only; for structural invariants).
+    pub fn verif_raw_keys(&self) -> VerifRawKeys {
+        let instant = self.keyspace.instant();
+        VerifRawKeys {
+            stream: self
+                .frame_partition
+                .snapshot_at(instant)
+                .iter()
+                .map(|kv| kv.unwrap())
+                .map(|(k, v)| (k.to_vec(), v.to_vec()))
+                .collect(),
+            idx_topic: self
+                .idx_topic
+                .snapshot_at(instant)
+                .iter()
+                .map(|kv| kv.unwrap().0.to_vec())
+                .collect(),
+            idx_context: self
+                .idx_context
+                .snapshot_at(instant)
+                .iter()
+                .map(|kv| kv.unwrap().0.to_vec())
+                .collect(),
+        }
+    }
 }
